@@ -37,7 +37,8 @@ CHECKS = {
             '(thorough) items over ~55 / ~35-item catalogues covering every declared-slot pattern, '
             'argument form and adjacency class, under the default context and three '
             'every-argument-type contexts; the normalised strict parse must equal the written '
-            'structure slot by slot.',
+            'structure slot by slot; constructed paragraph breaks (blank / tab fills) after a '
+            'comment, a group and text.',
             'Generator construction rules (DESIGN 3.3) are preconditions enforced by construction; '
             'one known finding (nested bracket groups) is attributed by a differential AST variant.',
             'DESIGN.md 5 C02'),
@@ -139,7 +140,8 @@ CHECKS = {
             'leave a parser in the middle of something (unknown names, aborted arguments of every '
             'parser class, verbatim arguments cut at nesting depth 1-3); histories in which the default '
             'database is built anew for every parse; recipes whose parse starts with ( ) as further '
-            'group delimiters; context-extending environments nested in one another.',
+            'group delimiters; context-extending environments nested in one another; two recipes '
+            'taking parsers from get_standard_argument_parser() with opposite option values.',
             'Finite document pool covering every argument parser class the library ships (state '
             'leaking only through other inputs is not seen); freeze() flag excluded from the '
             'snapshot.',
@@ -155,7 +157,9 @@ CHECKS = {
             'text-mode macro of the default database in six hosts, with blanks between \\begin / '
             '\\end and the name, including the mode of what follows the environment; a scoping sweep '
             '(a state-switching macro inside ten kinds of construct x five hosts: mode and settings '
-            'before / inside / after the switch / after the construct).',
+            'before / inside / after the switch / after the construct); all strings <= 3 / <= 4 symbols '
+            'under 16 restrictions of the delimiter lists x {fresh, derived once, derived twice} '
+            'states: a formula only for a declared pair.',
             'Reference parser and AST mode rules transcribe the documented behaviour (expected '
             'closing delimiter first, longest delimiter otherwise; argument and body deltas).',
             'DESIGN.md 5 C10'),
